@@ -7,7 +7,15 @@ from pyvc.spec import *   # noqa
 def declare(spec):
     spec.Class('Process', qual='circus.process:Process', fields={
         'pid': INT, 'wid': INT, 'started': REAL, 'stopping': BOOL, 'name': STR,
+        # ghost fields (exist only in contracts; written by ghost_at statements)
+        'klog': List(SIGEV),       # termination signals the supervisor issued for this worker
+        'naps': REAL,              # total sleep requested by the kill_process instance owning it
+        'alive_seen': REAL,        # value of naps when is_alive() last returned True
+        'closed': BOOL,            # output pipes closed (Process.stop)
     })
+    spec.Class('Redirector', qual='circus.stream.redirector:Redirector', fields={})
+    spec.ghost('K_alive', Set(INT))        # kernel: pids of live (not yet dead) children
+    spec.ghost('siglog', List(SIGEV))      # every signal actually handed to the kernel
     spec.Class('Watcher', qual='circus.watcher:Watcher', fields={
         'name': STR, 'numprocesses': INT, 'processes': Dict(INT, Ref('Process')),
         '_status': STR, 'singleton': BOOL, 'respawn': BOOL, 'on_demand': BOOL,
@@ -15,6 +23,7 @@ def declare(spec):
         'graceful_timeout': REAL, 'stop_signal': INT, 'stop_children': BOOL,
         'max_retry': INT, 'res_name': STR, 'evpub_socket': Ref('PubSocket'), 'sockets': VAL,
         'arbiter': Ref('Arbiter'), 'cmd': VAL, 'args': VAL, 'priority': INT, 'autostart': BOOL,
+        'stream_redirector': Ref('Redirector'), 'hooks': Dict(STR, VAL), 'ignore_hook_failure': List(STR),
     })
     spec.Class('PubSocket', fields={'closed': BOOL})
     spec.Class('Arbiter', qual='circus.arbiter:Arbiter', fields={
